@@ -23,6 +23,10 @@ def make_run(cfg, answer, **kw):
                      refine=cfg.get("refine", False), **kw)
 
 
+def _listeners(visitor, cfg):
+    return visitor.listeners(cfg) if hasattr(visitor, "listeners") else ()
+
+
 def _first_new_depth(prefix):
     """depth of the first node that no lexicographically earlier block has visited"""
     q = len(prefix)
@@ -63,8 +67,9 @@ def run_tree_block(task, visitor):
                 c += 1
             new_from = c + 1
         prev = leaf
-        run = make_run(cfg, scripted(leaf, alphabet))
+        run = make_run(cfg, scripted(leaf, alphabet), listeners=_listeners(visitor, cfg))
         visitor.begin(run, cfg)
+        visitor.new_from = new_from
         stats["runs"] += 1
         dead = False
         for j in range(1, depth + 1):
@@ -96,7 +101,7 @@ def run_tree_block(task, visitor):
 
 def replay_tree(rec, visitor):
     cfg, alphabet, choices = rec["cfg"], rec["alphabet"], rec["choices"]
-    run = make_run(cfg, scripted(choices, alphabet))
+    run = make_run(cfg, scripted(choices, alphabet), listeners=_listeners(visitor, cfg))
     visitor.begin(run, cfg)
     msgs = []
     for j in range(1, len(choices) + 1):
@@ -135,9 +140,10 @@ def dev_answer(default_fn, alts, dev):
 
 def run_dev(cfg, default_fn, alts, dev, h, visitor):
     """one complete execution of h trials; nodes after the last deviation are new"""
-    run = make_run(cfg, dev_answer(default_fn, alts, dev))
+    run = make_run(cfg, dev_answer(default_fn, alts, dev), listeners=_listeners(visitor, cfg))
     visitor.begin(run, cfg)
     new_from = max([p for p, _ in dev], default=1)
+    visitor.new_from = new_from
     msgs_all = []
     nodes = 0
     for j in range(1, h + 1):
